@@ -228,8 +228,52 @@ func (fe *analyticFieldEngine) applyCall(s *Stream, row map[string]any, c types.
 	}
 	if hasStarArg(c.Args) {
 		args = expandStarArgs(c.Args, row, args)
+	} else {
+		nullMissingColumnArgs(c.Args, args, row)
 	}
 	return state.Apply(args)
+}
+
+// nullMissingColumnArgs: parseFunctionArgs hands an unresolvable bare word back as its
+// own text (so that keyword-like literals survive). For an analytic call that turns a
+// column missing from the row into the column's NAME ("v"), which then counts as a value
+// (latest(v) = "v", acc_count(v) counts it, had_changed sees a change). A missing column
+// is NULL.
+func nullMissingColumnArgs(argExprs []string, args []any, row map[string]any) {
+	for i := range args {
+		if i >= len(argExprs) {
+			return
+		}
+		text := strings.TrimSpace(argExprs[i])
+		got, ok := args[i].(string)
+		if !ok || got != text || !isBareColumnName(text) {
+			continue
+		}
+		if _, exists := lookupRowField(row, text); !exists {
+			args[i] = nil
+		}
+	}
+}
+
+// isBareColumnName reports whether s is an identifier (optionally dotted) other than a
+// boolean/null keyword.
+func isBareColumnName(s string) bool {
+	if s == "" {
+		return false
+	}
+	switch strings.ToLower(s) {
+	case "true", "false", "null":
+		return false
+	}
+	for i, r := range s {
+		switch {
+		case r == '_' || r == '.' || (r >= 'a' && r <= 'z') || (r >= 'A' && r <= 'Z'):
+		case r >= '0' && r <= '9' && i > 0:
+		default:
+			return false
+		}
+	}
+	return true
 }
 
 // evaluateMultiColumn 处理 changed_cols 等多列函数：按 prefix+列名 扇出变化列。
